@@ -438,6 +438,14 @@ func init() {
 	externs["sort.Strings"] = func(x *X, s *State, c *ssa.CallCommon, a []Val, call ssa.Value) (Val, bool) {
 		return x.sortStrings(s, a[0], c.Args[0]), true
 	}
+	// slices.Sort on a []string is the same in-place permutation (the model says nothing about the order itself)
+	pure("slices.Sort", nil)
+	externs["slices.Sort"] = func(x *X, s *State, c *ssa.CallCommon, a []Val, call ssa.Value) (Val, bool) {
+		if st, ok := c.Args[0].Type().Underlying().(*types.Slice); !ok || scalarSort(st.Elem()) != "Str" {
+			x.fail("slices.Sort on %s", c.Args[0].Type())
+		}
+		return x.sortStrings(s, a[0], c.Args[0]), true
+	}
 }
 
 // sprint models fmt.Sprint of a short, statically known argument list as an injective function of the arguments.
